@@ -197,7 +197,7 @@ func c10AddRepoGit(l *c10Layout, r *Rand, dir, tag string, nwf int, withConfig, 
 	l.Dirty[pb] = want
 }
 
-var c10LayoutNames = []string{"one-repo", "two-repos", "prefix-siblings", "nested-repos", "repo-and-loose-files", "one-repo-many-files", "monorepo-mirror-cwd-inside"}
+var c10LayoutNames = []string{"one-repo", "two-repos", "prefix-siblings", "nested-repos", "repo-and-loose-files", "one-repo-many-files", "monorepo-mirror-cwd-inside", "case-siblings"}
 
 func c10GenLayout(r *Rand, idx int) *c10Layout {
 	l := &c10Layout{Files: map[string]string{}}
@@ -212,6 +212,15 @@ func c10GenLayout(r *Rand, idx int) *c10Layout {
 		c10AddRepo(l, r, "repo", "p1", r.Range(1, 2), true)
 		c10AddRepo(l, r, "repo-other", "p2", r.Range(1, 2), true)
 		c10AddRepo(l, r, "repo2", "p3", 1, true)
+	case "case-siblings":
+		// repositories whose root paths are equal up to letter case (distinct directories on a
+		// case-sensitive file system), each with its own configuration, action and workflow
+		c10AddRepo(l, r, "Deploy", "cs1", r.Range(1, 2), true)
+		c10AddRepo(l, r, "deploy", "cs2", r.Range(1, 2), true)
+		if r.Chance(1, 2) {
+			c10AddRepo(l, r, filepath.Join("sub", "DEPLOY"), "cs3", 1, true)
+			c10AddRepo(l, r, filepath.Join("Sub", "DEPLOY"), "cs4", 1, true)
+		}
 	case "nested-repos":
 		c10AddRepo(l, r, "outer", "out", r.Range(1, 2), true)
 		innerGitFile := r.Chance(1, 2) // a submodule: ".git" of the inner repository is a file
